@@ -221,6 +221,21 @@ def clause_snapshot_single_guard(prog, rep):
             acqs = [c for c in g.live_calls() if is_acq(c) and c.args and "p" in c.args[0]]
             # acquisitions hidden in callees (workspace functions that lock the same state)
             indirect = [c for c in g.live_calls() if not is_acq(c) and any(t.crate == "mdk_memory_storage" and acq.fn(t.path) for t in prog.call_targets(c))]
+            if not acqs and not indirect and any("MdkMemoryStorageInner" in str(g.locals[i]) for i in range(1, g.nargs + 1) if i < len(g.locals)):
+                # a builder that is handed the locked state (`fn snapshot_group(inner: &MdkMemoryStorageInner, ..)`): the guard is its
+                # caller's; each caller must make the call inside the live range of exactly one guard of its own
+                callers = [prog.fns[q] for q in sorted(prog.redges().get(g.path, ())) if q in prog.fns and not prog.fns[q].is_test_like()]
+                okc = bool(callers)
+                for cf in callers:
+                    cacq = [c for c in cf.live_calls() if is_acq(c) and c.args and "p" in c.args[0]]
+                    sites = [c for c in cf.live_calls() if any(t.path == g.path for t in prog.call_targets(c))]
+                    held = [a for a in cacq if all(c.bb in live_region(cf, a)[0] or c.bb == a.bb for c in sites)]
+                    if len(held) != 1:
+                        okc = False
+                rep.check(okc, "snapshot-one-instant", g.label(),
+                          "the snapshot is assembled from the locked state handed in by its caller, which holds exactly one guard across the call",
+                          "the snapshot builder takes the state by reference but a caller does not hold exactly one guard across the call", g.loc())
+                continue
             rep.check(len(acqs) == 1 and not indirect, "snapshot-one-instant", g.label(),
                       "the snapshot is assembled under a single read guard",
                       "the snapshot is assembled under %d lock acquisitions (%d direct, %d through %s): a concurrent writer or restore can slip in "
